@@ -3,5 +3,5 @@
 cd "$(dirname "$0")/.."
 ls -d seeded/C*-* | sed 's#seeded/##' | while read id; do
   if ! grep -q '"suite"' seeded/$id/meta.json; then echo $id; fi
-done | xargs -P ${JOBS:-4} -I{} bash -c 'pid=$(echo {} | cut -d- -f1); k=$(echo {} | cut -d- -f2); tools/seedcheck.py $pid $k --suite-only > /tmp/seedsuite_{}.log 2>&1'
+done | xargs -P ${JOBS:-4} -I{} bash -c 'pid=$(echo {} | cut -d- -f1); k=$(echo {} | cut -d- -f2); extra=""; if [ -d /tmp/seed2_$pid/_out ] && [ "$k" = 3 ]; then extra="--src /tmp/seed2_$pid/_out --srck 1"; fi; tools/seedcheck.py $pid $k --suite-only $extra > /tmp/seedsuite_{}.log 2>&1'
 pkill -f "tdgl.visualize --input"
